@@ -628,8 +628,21 @@ DRV_OP(OpOssOp, "oss.op") {
     } else if (k == "close") {
       if (pid.has_value()) {
         if (auto* doc = DocOf(*pid, false); doc != nullptr) {
-          mgr.TriggerSave(*doc);
-          mgr.TriggerClose(*doc);
+          if (a.value("save", true)) {
+            mgr.TriggerSave(*doc);
+          }
+          mgr.TriggerClose(*doc);   // without save: the window is closed while a change has not been announced yet
+          out["ret"] = true;
+        } else {
+          out["ret"] = false;
+        }
+      }
+    } else if (k == "announce") {
+      // the source manager reports a change of the document (whatever its saved flag says)
+      if (pid.has_value()) {
+        if (auto* doc = DocOf(*pid, false); doc != nullptr) {
+          doc->saved = true;
+          mgr.AnnounceChange(*doc);
           out["ret"] = true;
         } else {
           out["ret"] = false;
